@@ -280,6 +280,36 @@ func Literal(w string) (v *refnbt.Value, ok bool) {
 	return refnbt.St(w), true
 }
 
+// OutOfRangeInteger reports whether w has the form of an integer literal of the agreement grammar (optional sign,
+// digits without leading zeros, optional b/s/l suffix in either case) whose value does not fit the type the form
+// announces: 128b, -32769S, 2147483648, 9223372036854775808L. No reader gives such a text a number of that type -
+// the digits say a value the type cannot hold; the readers that take the text at all (vanilla among them) take it
+// as the unquoted string it also is. Float forms are left out: a decimal too large for its type is read as
+// infinity by some readers and as a string by others.
+func OutOfRangeInteger(w string) bool {
+	bits := 0
+	switch {
+	case reInt.MatchString(w):
+		bits = 32
+	case reIntSuf.MatchString(w):
+		switch w[len(w)-1] {
+		case 'b', 'B':
+			bits = 8
+		case 's', 'S':
+			bits = 16
+		case 'l', 'L':
+			bits = 64
+		default:
+			return false
+		}
+		w = w[:len(w)-1]
+	default:
+		return false
+	}
+	_, err := strconv.ParseInt(w, 10, bits)
+	return err != nil
+}
+
 var reLeadingZeros = regexp.MustCompile(`^([+-]?)(0[0-9]+)([bBsSlLiI]?)$`)
 
 var (
@@ -333,6 +363,15 @@ func (p *parser) literal(w string) *refnbt.Value {
 				p.lenientButTyped("integer literal with leading zeros: " + trunc(w))
 				return v
 			}
+			if OutOfRangeInteger(m[1] + digits + m[3]) {
+				// "0128b": not a Byte whichever way the zeros are taken
+				p.lenientButTyped("integer literal out of range for its type: " + trunc(w))
+				return refnbt.St(w)
+			}
+		}
+		if OutOfRangeInteger(w) {
+			p.lenientButTyped("integer literal out of range for its type: " + trunc(w))
+			return refnbt.St(w)
 		}
 		p.lenientBecause("literal outside the agreement grammar: " + trunc(w))
 		return refnbt.St(w)
@@ -649,6 +688,17 @@ func decimal(f float64, bits int) string {
 	return s
 }
 
+// decText is decimal with, one time in eight for values that are not negative, an explicit plus sign
+// ("+1.5", "+0.5f": inside the agreement grammar like "+1").
+func (l *Layout) decText(f float64, bits int) string {
+	s := decimal(f, bits)
+	if !math.Signbit(f) && l.R.Intn(8) == 0 {
+		s = "+" + s
+		l.f("num.plus-sign-decimal")
+	}
+	return s
+}
+
 // Render writes the text of v. Floats must be finite.
 func (l *Layout) Render(sb *strings.Builder, v *refnbt.Value) {
 	switch v.Tag {
@@ -667,7 +717,7 @@ func (l *Layout) Render(sb *strings.Builder, v *refnbt.Value) {
 			sb.WriteString(strconv.FormatInt(int64(f), 10) + l.suffix("f", "F"))
 			l.f("num.float-integer-form")
 		} else {
-			sb.WriteString(decimal(f, 32) + l.suffix("f", "F"))
+			sb.WriteString(l.decText(f, 32) + l.suffix("f", "F"))
 		}
 	case refnbt.Double:
 		f := math.Float64frombits(v.F64)
@@ -676,10 +726,10 @@ func (l *Layout) Render(sb *strings.Builder, v *refnbt.Value) {
 			sb.WriteString(strconv.FormatInt(int64(f), 10) + l.suffix("d", "D"))
 			l.f("num.double-integer-form")
 		case l.R.Intn(2) == 0:
-			sb.WriteString(decimal(f, 64))
+			sb.WriteString(l.decText(f, 64))
 			l.f("num.decimal-unsuffixed")
 		default:
-			sb.WriteString(decimal(f, 64) + l.suffix("d", "D"))
+			sb.WriteString(l.decText(f, 64) + l.suffix("d", "D"))
 		}
 	case refnbt.String:
 		l.str(sb, v.S)
